@@ -1118,6 +1118,10 @@ impl Check for C12 {
             "input/huge-size-refused",
         ]
     }
+    fn fuzz_families(&self, _tier: Tier) -> Vec<(&'static str, u64)> {
+        // libFuzzer runs per job (16 jobs), sized from the measured speed of the instrumented build
+        vec![("out-random", 40000), ("in-random", 200000)]
+    }
     fn families(&self, tier: Tier) -> Vec<Family<'_>> {
         let max_len = tier.pick(4, 5);
         let out_total = histories_up_to(OUT_ALPHABET, max_len) * out_targets().len() as u64;
